@@ -20,12 +20,12 @@ func init() {
 	register(&Rule{ID: "C10.in", Floor: 20,
 		Text: "every string argument of every call on the base file system is the direct result of ToBasePath applied to a parameter of the enclosing method (table of non-path string parameters: user name, temp-name pattern), and the base is never handed to a generic helper",
 		Run:  c10In})
-	register(&Rule{ID: "C10.out", Floor: 35, Also: []string{"C14"},
+	register(&Rule{ID: "C10.out", Floor: 30, Also: []string{"C14"},
 		// C14: Glob through BasePathFS returns the matches translated back, each by the wrapper's own translation
 		AlsoOnly: map[string][]string{"C14": {"Glob"}}, AlsoFloor: map[string]int{"C14": 1},
 		Text: "every path the base returns (Getwd, Abs, Glob, File.Name, ...) passes through FromBasePath before it is returned, and every error through FromPathError (FromLinkError for Link/Rename/Symlink, which are documented to return *LinkError)",
 		Run:  c10Out})
-	register(&Rule{ID: "C10.confine", Floor: 3,
+	register(&Rule{ID: "C10.confine", Floor: 2,
 		Text: "every value ToBasePath can return is the base path itself or the base path joined with the OS-aware Clean of a rooted (IsAbs) virtual path, so that '..' elements are clamped at the virtual root; never the unmodified parameter",
 		Run:  c10Confine})
 	register(&Rule{ID: "C10.prefix", Floor: 1,
@@ -244,13 +244,56 @@ func sliceElemsTranslated(s ssa.Value, via *ssa.Function) bool {
 				continue
 			}
 			for _, st := range storesTo(ia) {
-				if c := isCallTo(st.Val, via); c != nil {
+				if derivesFromTranslation(st.Val, via, 0) {
 					ok = true
 				}
 			}
 		}
 	}
 	return ok
+}
+
+// derivesFromTranslation: the value is FromBasePath(x), or was computed from such a value by a lexical function of the
+// library (Rel, Clean, Join ...), on every path that reaches it.
+func derivesFromTranslation(v ssa.Value, via *ssa.Function, depth int) bool {
+	if v == nil || depth > 6 {
+		return false
+	}
+	if isCallTo(v, via) != nil {
+		return true
+	}
+	switch x := v.(type) {
+	case *ssa.Phi:
+		for _, e := range x.Edges {
+			if !derivesFromTranslation(e, via, depth+1) {
+				return false
+			}
+		}
+		return len(x.Edges) > 0
+	case *ssa.Extract:
+		return derivesFromTranslation(x.Tuple, via, depth+1)
+	case *ssa.Call:
+		if fn := calleeFunc(x); fn != nil {
+			switch fn.Name() {
+			case "Rel", "Clean", "Join", "ToSlash", "FromSlash":
+				for _, a := range callArgs(x) {
+					if derivesFromTranslation(a, via, depth+1) {
+						return true
+					}
+				}
+			}
+		}
+	}
+	rs := resolveRaw(v)
+	if len(rs) == 0 || (len(rs) == 1 && rs[0] == v) {
+		return false
+	}
+	for _, rv := range rs {
+		if !derivesFromTranslation(rv, via, depth+1) {
+			return false
+		}
+	}
+	return true
 }
 
 func c10Confine(rc *RuleCtx) {
@@ -346,26 +389,178 @@ func confinedJoin(rc *RuleCtx, f *ssa.Function, v ssa.Value, param *ssa.Paramete
 		return "the joined path is cleaned by " + name + ", not by the Clean of the emulated OS type: on a file system whose separator differs from the host's, '..' elements are not clamped", false
 	}
 	cargs := callArgs(cc)
-	if len(cargs) == 0 || strip(cargs[len(cargs)-1]) != ssa.Value(param) {
-		return "Clean is not applied to the path parameter", false
+	if len(cargs) == 0 {
+		return "Clean without argument", false
 	}
-	// rooted: fact IsAbs(param) holds at the Clean call
-	rooted := false
-	for _, fa := range factsAt(cc.Block()) {
-		c, truth := normCond(fa.Cond, fa.Truth)
-		if ic, _ := resultOfCall(c); ic != nil && truth {
-			if ifn := calleeFunc(ic); ifn != nil && ifn.Name() == "IsAbs" {
-				ia := callArgs(ic)
-				if len(ia) > 0 && strip(ia[len(ia)-1]) == ssa.Value(param) {
-					rooted = true
+	// what is cleaned is, on every path, the path parameter known to be rooted (IsAbs), or the parameter joined to the
+	// file system's own working directory (rooted: C10.cwd)
+	isAbsFact := func(b *ssa.BasicBlock, truthWanted bool) bool {
+		for _, fa := range factsAt(b) {
+			c, truth := normCond(fa.Cond, fa.Truth)
+			if ic, _ := resultOfCall(c); ic != nil && truth == truthWanted {
+				if ifn := calleeFunc(ic); ifn != nil && ifn.Name() == "IsAbs" {
+					ia := callArgs(ic)
+					if len(ia) > 0 && strip(ia[len(ia)-1]) == ssa.Value(param) {
+						return true
+					}
+				}
+			}
+		}
+		return false
+	}
+	var rootedVal func(v ssa.Value, at *ssa.BasicBlock, depth int) (string, bool)
+	rootedVal = func(v ssa.Value, at *ssa.BasicBlock, depth int) (string, bool) {
+		if depth > 4 {
+			return "too deep", false
+		}
+		v = strip(v)
+		if v == ssa.Value(param) {
+			if isAbsFact(at, true) {
+				return "", true
+			}
+			return "the path is cleaned without being known to be rooted: Clean keeps leading '..' elements of a relative path", false
+		}
+		if phi, ok := v.(*ssa.Phi); ok {
+			for i, e := range phi.Edges {
+				pred := phi.Block().Preds[i]
+				// the decision taken on the edge itself (`if !IsAbs(p) { p = Join(cwd, p) }`: the skipping edge is IsAbs(p))
+				if strip(e) == ssa.Value(param) {
+					if iff, isIf := pred.Instrs[len(pred.Instrs)-1].(*ssa.If); isIf {
+						c, truth := normCond(iff.Cond, pred.Succs[0] == phi.Block())
+						if ic, _ := resultOfCall(c); ic != nil && truth {
+							if ifn := calleeFunc(ic); ifn != nil && ifn.Name() == "IsAbs" {
+								if ia := callArgs(ic); len(ia) > 0 && strip(ia[len(ia)-1]) == ssa.Value(param) {
+									continue
+								}
+							}
+						}
+					}
+				}
+				if why, ok := rootedVal(e, pred, depth+1); !ok {
+					return why, false
+				}
+			}
+			return "", true
+		}
+		if jc, _ := resultOfCall(v); jc != nil {
+			if jf := calleeFunc(jc); jf != nil && jf.Name() == "Join" && jf.Pkg() != nil && strings.HasPrefix(jf.Pkg().Path(), modPath) {
+				parts := joinParts(jc)
+				if len(parts) == 2 && strip(resolve1(parts[1])) == ssa.Value(param) {
+					if cd, _ := resultOfCall(resolve1(parts[0])); cd != nil && calleeFunc(cd) != nil && calleeFunc(cd).Name() == "CurDir" {
+						return "", true
+					}
+				}
+				return "the relative path is joined to something other than the working directory of this file system", false
+			}
+		}
+		rs := resolveRaw(v)
+		if len(rs) == 0 || (len(rs) == 1 && rs[0] == v) {
+			return "Clean is applied to " + accessPath(v) + ", not to the path parameter (rooted) or to the parameter joined to the working directory of this file system", false
+		}
+		for _, rv := range rs {
+			if why, ok := rootedVal(rv, at, depth+1); !ok {
+				return why, false
+			}
+		}
+		return "", true
+	}
+	if why, ok := rootedVal(cargs[len(cargs)-1], cc.Block(), 0); !ok {
+		return why, false
+	}
+	return "basePath joined with Clean(p), p being the rooted path argument or the argument joined to the working directory of this file system: '..' is clamped at the virtual root", true
+}
+
+// joinParts: the elements of a variadic Join(...) call.
+func joinParts(x ssa.CallInstruction) []ssa.Value {
+	args := callArgs(x)
+	if len(args) == 0 {
+		return nil
+	}
+	sl, ok := args[len(args)-1].(*ssa.Slice)
+	if !ok {
+		return nil
+	}
+	al, ok := sl.X.(*ssa.Alloc)
+	if !ok {
+		return nil
+	}
+	byIdx := map[int64]ssa.Value{}
+	for _, u := range referrersOf(al) {
+		if ia, ok := u.(*ssa.IndexAddr); ok {
+			if k, ok := constInt(ia.Index); ok {
+				for _, st := range storesTo(ia) {
+					byIdx[k] = st.Val
 				}
 			}
 		}
 	}
-	if !rooted {
-		return "the path is cleaned without being known to be rooted: Clean keeps leading '..' elements of a relative path", false
+	var parts []ssa.Value
+	for i := int64(0); i < int64(len(byIdx)); i++ {
+		parts = append(parts, byIdx[i])
 	}
-	return "basePath joined with Clean(path) of a rooted path: '..' is clamped at the virtual root", true
+	return parts
+}
+
+func init() {
+	register(&Rule{ID: "C10.cwd", Floor: 0,
+		Text: "the working directory a BasePathFS keeps for itself is always a path of its own name space: every SetCurDir in the package receives a FromBasePath result (an absolute virtual path), or a field that is only ever assigned such a result - relative paths are joined to it, never handed to the base file system",
+		Run:  c10Cwd})
+}
+
+func c10Cwd(rc *RuleCtx) {
+	fromBase := bpMethod(rc, "FromBasePath")
+	// fields of the package that only ever receive a FromBasePath result
+	virtualField := map[*types.Var]bool{}
+	written := map[*types.Var]bool{}
+	for _, f := range rc.C.srcFuncs("basepathfs") {
+		eachInstr(f, func(in ssa.Instruction) {
+			st, ok := in.(*ssa.Store)
+			if !ok {
+				return
+			}
+			fa, ok := st.Addr.(*ssa.FieldAddr)
+			if !ok || !isStringType(st.Val.Type()) {
+				return
+			}
+			fv := fieldVar(fa)
+			if fv == nil {
+				return
+			}
+			if !written[fv] {
+				written[fv] = true
+				virtualField[fv] = true
+			}
+			if fromBase == nil || !derivesFromTranslation(st.Val, fromBase, 0) {
+				virtualField[fv] = false
+			}
+		})
+	}
+	for _, f := range rc.C.srcFuncs("basepathfs") {
+		n := 0
+		eachCall(f, func(ci ssa.CallInstruction) {
+			if fn := calleeFunc(ci); fn == nil || fn.Name() != "SetCurDir" {
+				return
+			}
+			n++
+			cons := fmt.Sprintf("%s SetCurDir#%d", funcName(f), n)
+			arg := callArgs(ci)[0]
+			ok := fromBase != nil && derivesFromTranslation(arg, fromBase, 0)
+			if !ok {
+				if ld, isLd := strip(resolve1(arg)).(*ssa.UnOp); isLd && ld.Op == token.MUL {
+					if fa, isFA := ld.X.(*ssa.FieldAddr); isFA {
+						if fv := fieldVar(fa); fv != nil && virtualField[fv] {
+							ok = true
+						}
+					}
+				}
+			}
+			if ok {
+				rc.good(cons, ci.Pos(), "an absolute path of the virtual name space (FromBasePath result)")
+			} else {
+				rc.bad(cons, ci.Pos(), "the working directory is set to a value that is not a translated (virtual, absolute) path: relative paths joined to it can leave the base directory")
+			}
+		})
+	}
 }
 
 func c10Prefix(rc *RuleCtx) {
@@ -425,6 +620,19 @@ func c10Total(rc *RuleCtx) {
 				return
 			}
 			arg := callArgs(c)[0]
+			// a path this file system translated itself starts with the base path: every value ToBasePath returns is the
+			// base path or a Join under it (that is C10.confine), and so is the base path field
+			ra := resolve1(arg)
+			if isFieldLoad(ra, "basePath") {
+				rc.good(cons, c.Pos(), "the argument is the base path itself")
+				return
+			}
+			if tc, _ := resultOfCall(ra); tc != nil {
+				if tf := calleeFunc(tc); tf != nil && nm(tf) == "ToBasePath" {
+					rc.good(cons, c.Pos(), "the argument was produced by ToBasePath, whose results start with the base path (C10.confine)")
+					return
+				}
+			}
 			for _, fa := range factsAt(c.Block()) {
 				cv, truth := normCond(fa.Cond, fa.Truth)
 				if hc, _ := resultOfCall(cv); hc != nil && truth {
